@@ -317,6 +317,14 @@ impl Prop for C13 {
                 ops.push(Op::Release(down.remove(i)));
             }
             ops.push(Op::Gap(*r.pick(&[1u32, 1, 2, 3, 0])));
+            // an OS repeat event for a held key (handled between ticks with the same override
+            // machinery): it must not change what the next tick computes
+            if !down.is_empty() && r.chance(120) {
+                ops.push(Op::Repeat(*r.pick(&down)));
+                if r.chance(500) {
+                    ops.push(Op::Gap(1));
+                }
+            }
         }
         for k in down {
             ops.push(Op::Release(k));
